@@ -333,6 +333,9 @@ def run_stream(run, binp, name, which, histories, clauses, rule, shard=250):
     vlib.judge_stream(run, name, IMPORTS, "case", cases, res, term, cl, (0,), rule, judge="judge_c%02d" % which, shard=shard,
                       key_fn=lambda c: json.dumps(c["ops"], sort_keys=True),
                       dist_extra={"operations": nops, "history_lengths": {"min": min(len(c["ops"]) for c in cases), "max": max(len(c["ops"]) for c in cases)}})
+    if any(c.get("ochcap") for c in cases):
+        import queuecorr
+        queuecorr.run(run, name, cases, res)
 
 
 def replay(run, path, which):
